@@ -74,6 +74,12 @@ pub struct Case {
     pub after_s: u64,
     /// present it a second time right afterwards
     pub twice: bool,
+    /// the second presentation happens this many seconds after issue (None: right after the first)
+    pub second_after_s: Option<u64>,
+    /// NEW_TOKEN only: another genuine token is used at issue time (the reuse log's bookkeeping
+    /// starts with it), and the token under test comes from a second genuine connection made this
+    /// many seconds later; `after_s` / `second_after_s` still count from the first issue time
+    pub prime_gap_s: Option<u64>,
 }
 
 const RETRY_LIFETIME: u64 = 15;
@@ -180,6 +186,46 @@ pub fn run_case(base: Instant, c: &Case) -> Result<Option<Out>, String> {
                 (got[0].clone(), got[1].clone(), p.w.t)
             }
         };
+        let (tok, other) = match (c.prime_gap_s, &c.kind) {
+            (Some(g), Kind::NewToken) => {
+                p.w.nodes[SERVER].policy = crate::sim::AcceptPolicy::Ignore;
+                let _ = present_once(&mut p, &cfg, &From::Same, 7, &other);
+                p.w.nodes[SERVER].policy = crate::sim::AcceptPolicy::Accept;
+                let target = issued_at + Duration::from_secs(g);
+                if target > p.w.t {
+                    p.w.t = target;
+                    p.w.sim_time.set(p.w.t);
+                }
+                let st3 = Arc::new(Store::default());
+                let mut cc = client_config(&cfg, p.keylog.clone(), 0xe1);
+                cc.token_store(st3.clone());
+                let (cp3, _) = plans(Wl::W1, ReadMode::default());
+                let ch = p.w.connect(CLIENT, SERVER, cc, StdApp::new(Side::Client, cp3));
+                p.w.settle_conn(CLIENT, ch);
+                let mut n = 0;
+                while n < 3000 && st3.got.lock().unwrap().len() < 2 {
+                    n += 1;
+                    if !p.w.step() {
+                        break;
+                    }
+                }
+                // (let that connection's traffic finish: the presentations below step the world a few
+                // times only)
+                let mut n = 0;
+                while n < 3000 && !p.w.net.is_empty() {
+                    n += 1;
+                    if !p.w.step() {
+                        break;
+                    }
+                }
+                let got = st3.got.lock().unwrap().clone();
+                if got.len() < 2 {
+                    return None;
+                }
+                (got[0].clone(), got[1].clone())
+            }
+            _ => (tok, other),
+        };
         let Some(present) = alter(&tok, &other, &c.alter) else { return None };
         // second attempt(s)
         let target = issued_at + Duration::from_secs(c.after_s);
@@ -191,11 +237,28 @@ pub fn run_case(base: Instant, c: &Case) -> Result<Option<Out>, String> {
         let mut verdicts = vec![];
         let client_addr = p.w.nodes[CLIENT].addr;
         for round in 0..(1 + c.twice as usize) {
-            let node = match c.from {
+            if let (1, Some(s2)) = (round, c.second_after_s) {
+                let target = issued_at + Duration::from_secs(s2);
+                if target > p.w.t {
+                    p.w.t = target;
+                    p.w.sim_time.set(p.w.t);
+                }
+            }
+            let (inc, close) = present_once(&mut p, &cfg, &c.from, round, &present);
+            verdicts.push((inc, close));
+        }
+        Some(Out { verdicts, token_len: tok.len(), trace: p.w.trace_hash() })
+    })
+}
+
+/// One connection attempt presenting `present` as its token: (verdict of the Incoming, close code of a stateless answer)
+fn present_once(p: &mut StdPair, cfg: &crate::sim::PairCfg, from: &From, round: usize, present: &[u8]) -> (Option<(bool, bool)>, Option<u64>) {
+    let client_addr = p.w.nodes[CLIENT].addr;
+            let node = match *from {
                 From::Same => CLIENT,
                 _ => {
                     let nn = p.w.add_node(30 + round as u8, 8, None, None, |_| {});
-                    if c.from == From::SameIpOtherPort {
+                    if *from == From::SameIpOtherPort {
                         let mut a = client_addr;
                         a.set_port(client_addr.port() + 1 + round as u16);
                         p.w.src_rewrite.push((nn, 0, a));
@@ -204,7 +267,7 @@ pub fn run_case(base: Instant, c: &Case) -> Result<Option<Out>, String> {
                 }
             };
             let st2 = Arc::new(Store::default());
-            *st2.give.lock().unwrap() = Some(present.clone());
+            *st2.give.lock().unwrap() = Some(present.to_vec());
             let mut cc = client_config(&cfg, p.keylog.clone(), 0xd0 + round as u8);
             cc.token_store(st2);
             let inc_before = p.w.nodes[SERVER].incomings.len();
@@ -234,10 +297,7 @@ pub fn run_case(base: Instant, c: &Case) -> Result<Option<Out>, String> {
                     }
                 }
             }
-            verdicts.push((inc, close));
-        }
-        Some(Out { verdicts, token_len: tok.len(), trace: p.w.trace_hash() })
-    })
+    (inc, close)
 }
 
 /// What the property prescribes for one presentation
@@ -259,7 +319,7 @@ fn expected(c: &Case, round: usize) -> (&'static str, Option<bool>) {
         }
         Kind::NewToken => {
             let addr_ok = c.from != From::OtherIp;
-            let in_life = c.after_s <= TOKEN_LIFETIME - 1;
+            let in_life = c.after_s <= c.prime_gap_s.unwrap_or(0) + TOKEN_LIFETIME - 1;
             if addr_ok && in_life && round == 0 {
                 ("genuine NEW_TOKEN token from the same IP within its lifetime validates once", Some(true))
             } else {
@@ -278,7 +338,7 @@ pub fn main(args: &Args) -> ! {
     let mut rep = Report::new("C14", args, "model_checking");
     let thorough = args.tier == Tier::Thorough;
     let dl = deadline(if thorough { 1500 } else { 50 });
-    rep.rule = "Acceptance matrix (E3) on the real server endpoint: genuine Retry and NEW_TOKEN tokens are obtained from real flows (harness time source), then presented by a fresh client whose token store returns chosen bytes: the token unchanged, EVERY single-bit flip, every truncation, one-byte extension, every head/tail splice with a second genuine token, and empty; from the same address, the same IP with another port, and another IP; at issue time, lifetime-1 s and lifetime+2 s; and a second time. The verdict (Incoming::remote_address_validated / may_retry, or a stateless INVALID_TOKEN close) must equal what the property prescribes. Client side: with and without a real Retry the server's CID-echo transport parameters are removed / altered / added and the client must fail with TRANSPORT_PARAMETER_ERROR. The two token stores (BloomTokenLog, TokenMemoryCache) are searched exhaustively over call histories against reference models (merged from /verif/comp). States/transitions count those searches; evaluations add matrix cells.".into();
+    rep.rule = "Acceptance matrix (E3) on the real server endpoint: genuine Retry and NEW_TOKEN tokens are obtained from real flows (harness time source), then presented by a fresh client whose token store returns chosen bytes: the token unchanged, EVERY single-bit flip, every truncation, one-byte extension, every head/tail splice with a second genuine token, and empty; from the same address, the same IP with another port, and another IP; at issue time, lifetime-1 s and lifetime+2 s; and a second time, right away and (NEW_TOKEN) for every pair of moments on a grid of tenths of the lifetime, also for tokens issued 0.3 / 0.5 / 0.8 lifetimes after the first token the reuse log saw. The verdict (Incoming::remote_address_validated / may_retry, or a stateless INVALID_TOKEN close) must equal what the property prescribes. Client side: with and without a real Retry the server's CID-echo transport parameters are removed / altered / added and the client must fail with TRANSPORT_PARAMETER_ERROR. The two token stores (BloomTokenLog, TokenMemoryCache) are searched exhaustively over call histories against reference models (merged from /verif/comp). States/transitions count those searches; evaluations add matrix cells.".into();
     crate::checks::merge_comp(&mut rep, "C14", thorough, deadline(if thorough { 600 } else { 45 }));
     let mut cases = vec![];
     for kind in [Kind::Retry, Kind::NewToken] {
@@ -303,8 +363,31 @@ pub fn main(args: &Args) -> ! {
                     if !plain && (from != From::Same || after != 0) && !thorough {
                         continue;
                     }
-                    cases.push(Case { kind: kind.clone(), alter: a.clone(), from: from.clone(), after_s: after, twice: plain });
+                    cases.push(Case { kind: kind.clone(), alter: a.clone(), from: from.clone(), after_s: after, twice: plain, second_after_s: None, prime_gap_s: None });
                 }
+            }
+        }
+    }
+    // a genuine NEW_TOKEN token used at one moment of its lifetime and presented again at a later one
+    // (every pair on a grid of tenths of the lifetime): single use holds across the whole lifetime
+    for from in [From::Same, From::SameIpOtherPort] {
+        for i in 0..10u64 {
+            for j in i..10u64 {
+                let (a, b) = (i * TOKEN_LIFETIME / 10, (j * TOKEN_LIFETIME / 10 + 9).min(TOKEN_LIFETIME - 1));
+                cases.push(Case { kind: Kind::NewToken, alter: Alter::None, from: from.clone(), after_s: a, twice: true, second_after_s: Some(b), prime_gap_s: None });
+            }
+        }
+    }
+    // ... also for a token issued later than the one the log saw first (gap of 0.3 / 0.5 / 0.8 lifetimes)
+    for gap in [3u64, 5, 8] {
+        let g = gap * TOKEN_LIFETIME / 10;
+        for i in gap..(gap + 10) {
+            for j in i..(gap + 10) {
+                let (a, b) = (i * TOKEN_LIFETIME / 10 + 1, (j * TOKEN_LIFETIME / 10 + 9).min(g + TOKEN_LIFETIME - 1));
+                if b < a {
+                    continue;
+                }
+                cases.push(Case { kind: Kind::NewToken, alter: Alter::None, from: From::Same, after_s: a, twice: true, second_after_s: Some(b), prime_gap_s: Some(g) });
             }
         }
     }
@@ -314,7 +397,7 @@ pub fn main(args: &Args) -> ! {
     let mut validated = 0u64;
     let mut invalid_token = 0u64;
     for (c, r) in &res {
-        let rj = json!({"check":"c14","kind":format!("{:?}",c.kind),"alter":format!("{:?}",c.alter),"from":format!("{:?}",c.from),"after_s":c.after_s,"twice":c.twice});
+        let rj = json!({"check":"c14","kind":format!("{:?}",c.kind),"alter":format!("{:?}",c.alter),"from":format!("{:?}",c.from),"after_s":c.after_s,"twice":c.twice,"second_after_s":c.second_after_s,"prime_gap_s":c.prime_gap_s});
         match r {
             Err(e) => {
                 rep.evaluations += 1;
@@ -342,7 +425,7 @@ pub fn main(args: &Args) -> ! {
                             };
                             rep.violation(Violation {
                                 signature: format!("{sig}:{:?}", c.kind),
-                                what: format!("{:?} token, alteration {:?}, presented from {:?} {} s after issue (presentation #{}): server verdict incoming={inc:?} close={close:x?}; the property says: {why}", c.kind, c.alter, c.from, c.after_s, round + 1),
+                                what: format!("{:?} token, alteration {:?}, presented from {:?} {} s after issue (presentation #{}, the second one at {:?} s; token from a connection made {:?} s after the first token the log saw): server verdict incoming={inc:?} close={close:x?}; the property says: {why}", c.kind, c.alter, c.from, c.after_s, round + 1, c.second_after_s, c.prime_gap_s),
                                 replay: rj.clone(),
                             });
                         }
@@ -466,6 +549,8 @@ fn replay(args: &Args) -> ! {
         from: match r["from"].as_str().unwrap_or("") { "SameIpOtherPort" => From::SameIpOtherPort, "OtherIp" => From::OtherIp, _ => From::Same },
         after_s: r["after_s"].as_u64().unwrap_or(0),
         twice: r["twice"].as_bool().unwrap_or(false),
+        second_after_s: r["second_after_s"].as_u64(),
+        prime_gap_s: r["prime_gap_s"].as_u64(),
     };
     match run_case(Instant::now(), &c) {
         Err(e) => println!("PANIC {e}"),
